@@ -175,11 +175,18 @@ def rule_shadowing(ctx):
     ad = find_fn(UV, "add_declaration", "DeclarationEnvironment")
     if ad is not None:
         t = render(ad["body"]).replace(" ", "")
-        ctx.check(R, "DeclarationEnvironment::add_declaration/records-and-versions", "self.declarations.add_variable(name,Declaration::new(file_id,file_location));" in t and t.rstrip("}").endswith("self.get_next_version(name)"), t[:200], site(UV, ad))
+        import sgrep
+        pva = sgrep.params(ad)
+        from astlib import block_tail
+        tl_ = block_tail(ad["body"])
+        oka = len(pva) == 3 and sgrep.has(ad["body"], "self.declarations.add_variable(__n, Declaration::new(__f, __l))", sgrep.lets(ad["body"]), {"__n": pva[0], "__f": pva[1], "__l": pva[2]}) and tl_ is not None and sgrep.match(sgrep.pattern("self.get_next_version(__n)"), tl_, {"__n": pva[0]})
+        ctx.check(R, "DeclarationEnvironment::add_declaration/records-and-versions", oka, t[:200], site(UV, ad))
     gd = find_fn(UV, "get_declaration", "DeclarationEnvironment")
     if gd is not None:
         t = render(gd["body"]).replace(" ", "")
-        ctx.check(R, "DeclarationEnvironment::get_declaration", t == "{self.declarations.get_variable(name)}", t, site(UV, gd))
+        import sgrep
+        pvg = sgrep.params(gd)
+        ctx.check(R, "DeclarationEnvironment::get_declaration", bool(pvg) and sgrep.has(gd["body"], "self.declarations.get_variable(__n)", sgrep.lets(gd["body"]), {"__n": pvg[0]}), t, site(UV, gd))
     gn = find_fn(UV, "get_next_version", "DeclarationEnvironment")
     if gn is not None:
         ms2 = [m for m in walk(gn["body"]) if m["k"] == "Match" and "global_versions" in render(m["scrut"])]
@@ -189,7 +196,10 @@ def rule_shadowing(ctx):
                 tab[render(a["pat"]).replace(" ", "")] = render(strip(a["body"])).replace(" ", "")
         ctx.check(R, "DeclarationEnvironment::get_next_version/table", tab == {"None": "None", "Some(None)": "Some(0)", "Some(Some(version))": "Some((version+1))"}, str(tab), site(UV, gn))
         t = render(gn["body"]).replace(" ", "")
-        ctx.check(R, "DeclarationEnvironment::get_next_version/global-then-scoped", "self.global_versions.add_variable(name,version);" in t and "self.scoped_versions.add_variable(name,version);" in t, "", site(UV, gn))
+        import sgrep
+        pvn_ = sgrep.params(gn)
+        okgs = bool(pvn_) and sgrep.has(gn["body"], "self.global_versions.add_variable(__n, __v)", None, {"__n": pvn_[0]}) and sgrep.has(gn["body"], "self.scoped_versions.add_variable(__n, __w)", None, {"__n": pvn_[0]})
+        ctx.check(R, "DeclarationEnvironment::get_next_version/global-then-scoped", okgs, "", site(UV, gn))
     # parameters
     tf = None
     for q, f in fns_in_file(UV):
@@ -208,7 +218,11 @@ def rule_shadowing(ctx):
     eu = find_fn(UV, "ensure_unique_variables")
     if eu is not None:
         t = render(eu["body"]).replace(" ", "")
-        ctx.check(R, "ensure_unique_variables/parameters-outermost", "letmutenv=param_data.try_into()?;visit_statement(stmt,&mutenv,reports);" in t, t[:200], site(UV, eu))
+        import sgrep
+        pve = sgrep.params(eu)
+        envn = [k for k, v in sgrep.lets(eu["body"]).items() if len(pve) == 3 and sgrep.match(sgrep.pattern("__p.try_into()?"), v, {"__p": pve[1]})]
+        oke = len(envn) == 1 and sgrep.has(eu["body"], "visit_statement(__s, __e, __r)", None, {"__s": pve[0], "__e": envn[0], "__r": pve[2]})
+        ctx.check(R, "ensure_unique_variables/parameters-outermost", oke, t[:200], site(UV, eu))
 
 
 def rule_for_scope(ctx):
